@@ -458,5 +458,17 @@ def rule_i8(repo):
     return res
 
 
+def rule_i9(repo):
+    """Term.subst determines the type instantiation by matching the type of each instantiated schematic variable against
+    the type of its instance (Type.match_incr, incrementally, into one table).  The result is well typed only if that
+    matcher is exact: the case rules of C09.N5, which are about the same function."""
+    from .c09 import rule_n5
+    r = rule_n5(repo)
+    res = RuleResult('C03.I9', 'the incremental type matcher behind Term.subst binds, compares and recurses exactly', floor=5)
+    for i in r.instances:
+        res.add(i.key, i.ok, i.detail, i.loc)
+    return res
+
+
 def rules(repo):
-    return [rule_i1(repo), rule_i2(repo), rule_i3(repo), rule_i4(repo), rule_i5(repo), rule_i6(repo), rule_i7(repo), rule_i8(repo)]
+    return [rule_i1(repo), rule_i2(repo), rule_i3(repo), rule_i4(repo), rule_i5(repo), rule_i6(repo), rule_i7(repo), rule_i8(repo), rule_i9(repo)]
